@@ -398,3 +398,94 @@ def guards(node, stop=None):
         child = p
         p = parent(p)
     return out
+
+
+def _constlike(e):
+    return isinstance(e, ast.Constant) or (isinstance(e, ast.Name) and e.id.isupper()) \
+        or (isinstance(e, ast.Attribute) and e.attr.isupper())
+
+
+def literals(guard_list):
+    """
+    Atomic facts implied by a list of (test, polarity) guards, in a canonical
+    spelling so that equivalent ways of writing a condition compare equal:
+    ``not``, ``and`` under True / ``or`` under False are split up; ``!=``,
+    ``is not``, ``not in`` become the positive operator with flipped
+    polarity; a constant on the left of a symmetric comparison is moved to
+    the right.  Returns a list of (expr, text, polarity); ``expr`` keeps the
+    original operand nodes (so they can be handed to the flow analysis).
+    """
+    out = []
+
+    def go(test, pol):
+        if isinstance(test, ast.UnaryOp) and isinstance(test.op, ast.Not):
+            return go(test.operand, not pol)
+        if isinstance(test, ast.BoolOp):
+            if (isinstance(test.op, ast.And) and pol) or (isinstance(test.op, ast.Or) and not pol):
+                for v in test.values:
+                    go(v, pol)
+                return
+            out.append((test, norm(test), pol))
+            return
+        if isinstance(test, ast.Compare) and len(test.ops) == 1:
+            l, op, r = test.left, test.ops[0], test.comparators[0]
+            if isinstance(op, (ast.Eq, ast.NotEq, ast.Is, ast.IsNot)) and _constlike(l) and not _constlike(r):
+                l, r = r, l
+            neg = {ast.NotEq: ast.Eq, ast.IsNot: ast.Is, ast.NotIn: ast.In}
+            if type(op) in neg:
+                op = neg[type(op)]()
+                pol = not pol
+            new = ast.Compare(left=l, ops=[op], comparators=[r])
+            out.append((new, norm(new), pol))
+            return
+        out.append((test, norm(test), pol))
+    for t, p in guard_list:
+        go(t, p)
+    return out
+
+
+def _always_exits(body):
+    if not body:
+        return False
+    last = body[-1]
+    if isinstance(last, (ast.Return, ast.Raise, ast.Continue, ast.Break)):
+        return True
+    if isinstance(last, ast.If):
+        return bool(last.orelse) and _always_exits(last.body) and _always_exits(last.orelse)
+    return False
+
+
+def facts_at(node, stop=None):
+    """
+    Canonical literals (see ``literals``) known to hold when ``node`` runs:
+    the enclosing if/while conditions plus the negations of earlier guard
+    clauses (``if c: return/raise/continue/break`` preceding the statement in
+    one of its enclosing blocks).  Names re-assigned between the guard clause
+    and the node invalidate that clause.
+    """
+    gl = list(guards(node, stop))
+    st = node
+    while st is not None and not isinstance(st, ast.stmt):
+        st = parent(st)
+    while st is not None and not isinstance(st, (ast.FunctionDef, ast.AsyncFunctionDef, ast.Module, ast.ClassDef)):
+        p = parent(st)
+        if p is None or p is stop:
+            break
+        for field in ('body', 'orelse', 'finalbody'):
+            bl = getattr(p, field, None)
+            if isinstance(bl, list) and st in bl:
+                i = bl.index(st)
+                for j, prev in enumerate(bl[:i]):
+                    if isinstance(prev, ast.If) and not prev.orelse and _always_exits(prev.body):
+                        names = {n.id for n in ast.walk(prev.test) if isinstance(n, ast.Name)}
+                        killed = any(isinstance(x, ast.Name) and isinstance(x.ctx, ast.Store) and x.id in names
+                                     for mid in bl[j + 1:i] for x in ast.walk(mid))
+                        if not killed:
+                            gl.append((prev.test, False))
+                break
+        if isinstance(p, (ast.For, ast.While)) and isinstance(st, ast.stmt):
+            pass
+        st = p
+        if isinstance(st, (ast.FunctionDef, ast.AsyncFunctionDef, ast.Lambda)):
+            break
+    return literals(gl)
